@@ -11,6 +11,7 @@ pub mod c08;
 pub mod c09;
 pub mod c10;
 pub mod c11;
+pub mod c12;
 pub mod pairs;
 pub mod util;
 
@@ -29,6 +30,7 @@ pub fn run(ctx: &Ctx) -> PropResult {
         "C09" => c09::run(ctx),
         "C10" => c10::run(ctx),
         "C11" => c11::run(ctx),
+        "C12" => c12::run(ctx),
         other => Err(format!("no monitor for {}", other)),
     }
 }
